@@ -501,12 +501,18 @@ func initTopicP2P(t *Topic, sreg *ClientComMessage) error {
 			if err = store.Subs.Create(subToMake); err != nil {
 				return err
 			}
+			// A deleted subscription is restored rather than created: the adapters keep the private
+			// data of the stored row. Read it back, the loaded topic must show the same.
+			if restored, err := store.Subs.Get(t.name, types.ParseUid(subToMake.User), false); err == nil && restored != nil {
+				subToMake.Private = restored.Private
+			}
 		}
 
 		// Public and Trusted are already swapped.
 		userData.public = sub1.GetPublic()
 		userData.trusted = sub1.GetTrusted()
 		userData.topicName = userID2.UserId()
+		userData.private = sub1.Private
 		userData.modeWant = sub1.ModeWant
 		userData.modeGiven = sub1.ModeGiven
 		userData.delID = sub1.DelId
@@ -515,6 +521,7 @@ func initTopicP2P(t *Topic, sreg *ClientComMessage) error {
 		t.perUser[userID1] = userData
 
 		t.perUser[userID2] = perUserData{
+			private:   sub2.Private,
 			public:    sub2.GetPublic(),
 			trusted:   sub2.GetTrusted(),
 			topicName: userID1.UserId(),
